@@ -64,7 +64,27 @@ def run_case(spec):
     viol = []
     counters = {'cases': 1}
     try:
-        refgen.write_reference(ref, wd)
+        # GENCODE lists pseudo-autosomal genes twice: <id> on chrX and <id>_PAR_Y on chrY. A quarter of the references get such a
+        # twin of one gene (written to the files only; the fusions are drawn from the original genes, and an unversioned gene id
+        # - FusionCatcher - must resolve to the original, never to the _PAR_Y twin)
+        ref_w = ref
+        rng_par = random.Random(common.hash64(spec['seed'], 'par'))
+        if rng_par.random() < 0.25:
+            import copy
+            from harness.model.seqmodel import Gene, Tx
+            ref_w = copy.deepcopy(ref)
+            g0 = rng_par.choice(ref_w.genes)
+            ref_w.chroms['chrY'] = ref_w.chroms[g0.chrom]
+            twin = Gene(g0.id + '_PAR_Y', 'chrY', g0.start, g0.end, g0.strand, g0.name, g0.biotype)
+            for t in g0.txs:
+                t2 = Tx(t.id + '_PAR_Y', twin, t.exons, t.coding, t.cds, list(t.sec), t.cds_start_nf, t.mrna_end_nf, t.biotype)
+                twin.txs.append(t2)
+            if rng_par.random() < 0.5:
+                ref_w.genes.append(twin)
+            else:
+                ref_w.genes.insert(0, twin)
+            counters['par_y_twins'] = 1
+        refgen.write_reference(ref_w, wd)
 
         def bad(kind, msg):
             if len(viol) < 8:
@@ -259,6 +279,6 @@ def check(rep, tier, seed, specs=None, n_override=None):
                 'end to end: callVariant on the emitted GVF, FUSION-labelled peptides must be liberal digestion products of that sequence. '
                 'non-trivial = >= 1 record emitted.')
     rep.absorb(results, lost)
-    for k in ('star_runs', 'fc_runs', 'ar_runs', 'records', 'sequences', 'e2e_runs', 'e2e_entries'):
+    for k in ('star_runs', 'fc_runs', 'ar_runs', 'records', 'sequences', 'e2e_runs', 'e2e_entries', 'par_y_twins'):
         if not rep.counters.get(k):
             rep.inconclusive.append(f'monitor {k} had zero evaluations')
